@@ -131,6 +131,28 @@ _APPS = {}
 _PAGES = {}
 
 
+_WATCH = []
+
+
+def _watch_help_pages(rec):
+    """harness-side observation (clikit itself is not touched): which command a CommandHelp was built for, used only to
+    tell apart commands whose help pages have the very same text (a command and its anonymous default sub-command)"""
+    from clikit.ui.help.command_help import CommandHelp
+    if not _WATCH:
+        orig = CommandHelp.__init__
+
+        def init(self, command, *a, **k):
+            names, c = [], command
+            while c is not None:
+                names.insert(0, c.name)
+                c = c.parent_command
+            _WATCH[0]["help_of"] = " ".join(names)
+            return orig(self, command, *a, **k)
+        CommandHelp.__init__ = init
+        _WATCH.append(rec)
+    _WATCH[0] = rec
+
+
 def _mk(tree):
     key = json.dumps(tree, sort_keys=True)
     if key in _APPS:
@@ -140,6 +162,7 @@ def _mk(tree):
     from clikit import ConsoleApplication
     from clikit.ui.components import Question
     rec = {}
+    _watch_help_pages(rec)
 
     class Handler(object):
         def handle(self, args, io, command):
@@ -185,6 +208,8 @@ def _run(tree, toks, catch=True):
     from clikit.io.input_stream import StringInputStream
     app, config, rec = _mk(tree)
     rec.clear()
+    if _WATCH:
+        _WATCH[0] = rec
     config.set_catch_exceptions(catch)
     out, errs = BufferedOutputStream(), BufferedOutputStream()
     exc = None
@@ -197,7 +222,7 @@ def _run(tree, toks, catch=True):
     if io is not None:
         settings = [io.verbosity, int(io.is_quiet()), int(io.is_interactive()), int(io.output.supports_ansi()), int(io.error_output.supports_ansi())]
     return {"status": st, "exc": exc, "out": out.fetch(), "err": errs.fetch(), "settings": settings,
-            "handler": rec.get("handler"), "pre": rec.get("pre_handle"), "answer": rec.get("answer"), "seen": rec.get("seen")}
+            "handler": rec.get("handler"), "pre": rec.get("pre_handle"), "answer": rec.get("answer"), "seen": rec.get("seen"), "help_of": rec.get("help_of")}
 
 
 def _pages(tree):
@@ -257,7 +282,9 @@ def run_impl(c):
         if "APP" in which:
             action = [0]
         elif which:
-            action = [1, [S(p) for p in which[0].split(" ")]]
+            # several commands with the very same page text: the one the page was built for, when it is among them
+            w = r.get("help_of") if r.get("help_of") in which else which[0]
+            action = [1, [S(p) for p in w.split(" ")]]
         else:
             action = [9, S(text[:60])]
     facts = {"status": r["status"], "out_empty": r["out"] == "", "err_empty": r["err"] == "", "esc_out": "\x1b" in r["out"],
